@@ -811,5 +811,226 @@ theorem chain_parse {k : Nat} {lv : Level} (hK : 1 ≤ k) (hlv : t.levels[k - 1]
 end binL
 
 
+/-! ### postfix chains -/
+
+/-- operand of the postfix chain of level `k` that `e` is (or `e` itself) -/
+def pHead (k : Nat) : Ex → Ex
+  | .post k' e wo => if k' = k then pHead k e else .post k' e wo
+  | e => e
+
+/-- the blanks before each postfix operator of the chain, front to back -/
+def pRest (k : Nat) : Ex → List (List Char)
+  | .post k' e wo => if k' = k then pRest k e ++ [wo] else []
+  | _ => []
+
+/-- spelling of the operators of the chain -/
+def pR (op : List Char) : List (List Char) → List Char
+  | [] => []
+  | w :: r => w ++ (op ++ pR op r)
+
+/-- their tokens in the flat group -/
+def pN (op : List Char) : List (List Char) → List Tok
+  | [] => []
+  | _ :: r => .s op :: pN op r
+
+theorem pR_append (op : List Char) (r1 r2 : List (List Char)) : pR op (r1 ++ r2) = pR op r1 ++ pR op r2 := by
+  induction r1 with
+  | nil => rfl
+  | cons x r ih => simp [pR, ih, List.append_assoc]
+
+theorem pN_append (op : List Char) (r1 r2 : List (List Char)) : pN op (r1 ++ r2) = pN op r1 ++ pN op r2 := by
+  induction r1 with
+  | nil => rfl
+  | cons x r ih => simp [pN, ih]
+
+theorem p_low {k : Nat} : ∀ e : Ex, e.lvl < k → pHead k e = e ∧ pRest k e = [] := by
+  intro e h
+  cases e with
+  | post k' e wo =>
+    simp only [Ex.lvl] at h
+    have : k' ≠ k := by omega
+    simp [pHead, pRest, this]
+  | _ => simp [pHead, pRest]
+
+theorem p_renderB (t : Table) (k : Nat) : ∀ e,
+    renderB t e = renderB t (pHead k e) ++ pR (opOf t k) (pRest k e) := by
+  intro e
+  induction e with
+  | post k' e wo ih =>
+    by_cases h : k' = k
+    · subst h
+      simp only [pHead, pRest, if_true, renderB, pR_append, pR]
+      rw [ih]
+      simp [List.append_assoc]
+    · simp [pHead, pRest, h, pR]
+  | _ => simp [pHead, pRest, pR]
+
+/-- the documented nesting of a postfix chain: one flat group -/
+theorem p_nest (t : Table) (k : Nat) : ∀ (e : Ex) (wo : List Char),
+    nest t (.post k e wo) = .g (nest t (pHead k e) :: pN (opOf t k) (pRest k e ++ [wo])) := by
+  intro e
+  induction e with
+  | post k' e' w' ih =>
+    intro wo
+    by_cases h : k' = k
+    · subst h
+      conv => lhs; unfold nest
+      rw [ih w']
+      simp [pHead, pRest, pN_append, pN]
+    · conv => lhs; unfold nest
+      simp only [pHead, pRest, h, if_false, List.nil_append, pN]
+      split
+      · simp_all
+      · rfl
+  | _ => intro wo; simp [nest, pHead, pRest, pN]
+
+section postL
+variable {t : Table} {cs : List Char} {re : Bool} (hT : ClassG t cs re) (s : List Char)
+include hT
+
+theorem p_follow {k : Nat} {lv : Level} (hK : 1 ≤ k) (hlv : t.levels[k - 1]? = some lv)
+    {p : Nat} {rest : List (List Char)} {suf : List Char}
+    (hs : s.drop p = pR lv.op1 rest ++ suf) (hw : ∀ x ∈ rest, White t.white x)
+    (hf : FollowG t cs s k (p + (pR lv.op1 rest).length)) : FollowG t cs s (k - 1) p := by
+  cases rest with
+  | nil => simpa [pR] using hf.mono (k' := k - 1) (by omega)
+  | cons x r =>
+    have hop := hT.opOk lv (lv_mem hlv)
+    obtain ⟨oc, or', hor⟩ := List.exists_cons_of_ne_nil hop.1
+    have hoc := hop.2 oc (by simp [hor])
+    have hwx := hw x (by simp)
+    have hs0 : s.drop p = x ++ (lv.op1 ++ (pR lv.op1 r ++ suf)) := by
+      rw [hs]; simp [pR, List.append_assoc]
+    have hpa : skipWhite t.white s p = p + x.length :=
+      skipWhite_eq hs0 hwx (by intro d hd; rw [hor] at hd; simp at hd; subst hd; exact hoc.1)
+    constructor
+    · exact next_not_cs hs0 hor hoc.2 (white_not_cs hT hwx)
+    · intro j lvj hj1 hjk hlvj _
+      rw [hpa, drop_add hs0]
+      exact not_prefix_append _ (hT.opsInc _ _ _ _ hlvj hlv (by omega)) (hT.opsInc _ _ _ _ hlv hlvj (by omega))
+
+/-- a postfix chain `h op op …` of a POSTFIX level `k` at that level: the `_FB(lastExpr + opExpr)` lookahead succeeds,
+    then `Group(lastExpr + opExpr[1, ...])` collects all the operators into ONE flat group; the repetition stops where
+    the operator literal does not match -/
+theorem post_parse {k : Nat} {lv : Level} (hK : 1 ≤ k) (hlv : t.levels[k - 1]? = some lv)
+    (ha : lv.arity = 1) (hr : lv.right = false) {h : Ex} {w1 : List Char} {r : List (List Char)}
+    (hh : OperandOK t cs s k h) (hw : ∀ w ∈ w1 :: r, White t.white w) :
+    ∀ q suf, s.drop q = renderB t h ++ (pR lv.op1 (w1 :: r) ++ suf) → skipWhite t.white s q = q →
+      FollowG t cs s k (q + (renderB t h).length + (pR lv.op1 (w1 :: r)).length) →
+      ∀ a c loc, preOf t.white s c true loc = q →
+        Holds t s (E k) loc a c (.ok (q + (renderB t h).length + (pR lv.op1 (w1 :: r)).length)
+          [.g (nest t h :: pN lv.op1 (w1 :: r))]) := by
+  intro q suf hs hq hf a c loc hloc
+  have hKn : k ≤ t.levels.length := by
+    have := (List.getElem?_eq_some_iff.mp hlv).1; omega
+  have hkind := hT.kinds lv (lv_mem hlv)
+  have hop := hT.opOk lv (lv_mem hlv)
+  obtain ⟨oc, or', hor⟩ := List.exists_cons_of_ne_nil hop.1
+  have hoc := hop.2 oc (by simp [hor])
+  have hpos : 0 < lv.op1.length := List.length_pos_iff.mpr hop.1
+  have hfbF : ∀ j, j < 14 → j ≠ 3 → (fbIds t).elem (E k + j) = false := by
+    intro j hj h3; rw [fb_level t hK hKn hj]; simp [h3]
+  have hfbT : (fbIds t).elem (E k + 3) = true := by rw [fb_level t hK hKn (by omega)]; simp
+  have g0 : (infixGrammar t)[E k + 0]? = some (mkNode t.white (.forward (some (E k + 1))) true true) := by
+    rw [gram_level t hK hlv (by omega)]; simp [levelNodes]
+  have g1 : (infixGrammar t)[E k + 1]? = some (mkNode t.white (.matchFirst ((E k + 2) :: tailOf t k)) true false) := by
+    rw [gram_level t hK hlv (by omega)]; simp [levelNodes]
+  have g2 : (infixGrammar t)[E k + 2]? = some (mkNode t.white (.and [E k + 3, E k + 4]) true true) := by
+    rw [gram_level t hK hlv (by omega)]; simp [levelNodes, hkind.1, mkNode]
+  have g3 : (infixGrammar t)[E k + 3]? = some (mkNode t.white (.followedBy (E k + 5)) true true) := by
+    rw [gram_level t hK hlv (by omega)]; simp [levelNodes]
+  have g4 : (infixGrammar t)[E k + 4]? = some (mkNode t.white (.group (E k + 6)) true true) := by
+    rw [gram_level t hK hlv (by omega)]; simp [levelNodes]
+  have g5 : (infixGrammar t)[E k + 5]? = some (mkNode t.white (.and [E (k - 1), E k + 7]) true true) := by
+    rw [gram_level t hK hlv (by omega)]; simp [levelNodes, ha, hr]
+  have g6 : (infixGrammar t)[E k + 6]? = some (mkNode t.white (.and [E (k - 1), E k + 9]) true true) := by
+    rw [gram_level t hK hlv (by omega)]; simp [levelNodes, ha, hr]
+  have g7 : (infixGrammar t)[E k + 7]? = some (mkNode t.white (litKind lv.op1) false true) := by
+    rw [gram_level t hK hlv (by omega)]; simp [levelNodes]
+  have g9 : (infixGrammar t)[E k + 9]? = some (mkNode t.white (.many (E k + 7) none true) false true) := by
+    rw [gram_level t hK hlv (by omega)]; simp [levelNodes, ha, hr]
+  -- one operator of the chain, wherever it stands
+  have piece : ∀ (p : Nat) (w suf' : List Char), s.drop p = w ++ (lv.op1 ++ suf') → White t.white w →
+      (∀ a' c' loc', preOf t.white s c' true loc' = p + w.length →
+        Holds t s (E k + 7) loc' a' c' (.ok (p + w.length + lv.op1.length) [.s lv.op1])) ∧
+      skipWhite t.white s p = p + w.length ∧
+      skipWhite t.white s (p + w.length) = p + w.length ∧
+      p + w.length + lv.op1.length ≤ s.length := by
+    intro p w suf' hs0 hwx
+    have h1 := drop_add hs0
+    have hpa : skipWhite t.white s p = p + w.length :=
+      skipWhite_eq hs0 hwx (by intro d hd; rw [hor] at hd; simp at hd; subst hd; exact hoc.1)
+    have hqo : skipWhite t.white s (p + w.length) = p + w.length := by
+      have := skipWhite_eq (W := t.white) (ws := []) (x := lv.op1 ++ suf') (by simpa using h1)
+        (by simp) (by intro d hd; rw [hor] at hd; simp at hd; subst hd; exact hoc.1)
+      simpa using this
+    refine ⟨?_, hpa, hqo, len_le_of_drop h1 hop.1⟩
+    intro a' c' loc' hl'
+    exact H_lit_ok t s (hfbF 7 (by omega) (by omega)) g7 hl' hop.1 h1
+  -- the loop over the rest of the chain
+  have loop : ∀ (r : List (List Char)) (p : Nat) (acc : List Tok) (suf' : List Char) (a' : Bool),
+      s.drop p = pR lv.op1 r ++ suf' → (∀ w ∈ r, White t.white w) →
+      FollowG t cs s k (p + (pR lv.op1 r).length) →
+      HLoop t s (mkNode t.white (.many (E k + 7) none true) false true) a' (E k + 7) p acc
+        (.ok (p + (pR lv.op1 r).length) (acc ++ pN lv.op1 r)) := by
+    intro r
+    induction r with
+    | nil =>
+      intro p acc suf' a' hsr _ hfr
+      simp only [pR, pN, List.length_nil, Nat.add_zero, List.append_nil] at hfr ⊢
+      obtain ⟨lf, hfail⟩ := H_lit_fail t s (a := a') (c := true) (loc := p)
+        (hfbF 7 (by omega) (by omega)) g7 (preOf_true _ _ _) hop.1 (hfr.2 k lv hK (Nat.le_refl _) hlv (by simp [hr]))
+      exact HLoop.stop t s _ (by simp [mkNode]) hfail
+    | cons w r ih =>
+      intro p acc suf' a' hsr hxr hfr
+      have hs0 : s.drop p = w ++ (lv.op1 ++ (pR lv.op1 r ++ suf')) := by
+        rw [hsr]; simp [pR, List.append_assoc]
+      have h2 := drop_add (drop_add hs0)
+      have hlen : p + (pR lv.op1 (w :: r)).length = p + w.length + lv.op1.length + (pR lv.op1 r).length := by
+        simp [pR, List.length_append]; omega
+      rw [hlen] at hfr ⊢
+      have hxr' : ∀ y ∈ r, White t.white y := fun y hy => hxr y (by simp [hy])
+      obtain ⟨hOp, hpa, _, hle⟩ := piece p w _ hs0 (hxr w (by simp))
+      have := ih _ (acc ++ [.s lv.op1]) suf' a' h2 hxr' hfr
+      have e : acc ++ [Tok.s lv.op1] ++ pN lv.op1 r = acc ++ pN lv.op1 (w :: r) := by simp [pN]
+      rw [e] at this
+      exact HLoop.step t s (by simp [mkNode]) (hOp a' true p (by rw [preOf_true, hpa])) (by omega) hle this
+  -- the chain
+  have hs0 : s.drop q = renderB t h ++ (w1 ++ (lv.op1 ++ (pR lv.op1 r ++ suf))) := by
+    rw [hs]; simp [pR, List.append_assoc]
+  have h1 := drop_add hs0
+  have h3 := drop_add (drop_add h1)
+  have hlen : q + (renderB t h).length + (pR lv.op1 (w1 :: r)).length
+      = q + (renderB t h).length + w1.length + lv.op1.length + (pR lv.op1 r).length := by
+    simp [pR, List.length_append]; omega
+  have hwr : ∀ y ∈ r, White t.white y := fun y hy => hw y (by simp [hy])
+  have hfolH : FollowG t cs s (k - 1) (q + (renderB t h).length) :=
+    p_follow hT s hK hlv (rest := w1 :: r) (suf := suf) (by rw [h1]; simp [pR, List.append_assoc]) hw hf
+  rw [hlen] at hf ⊢
+  obtain ⟨hOp, hpa, hqo, hle⟩ := piece _ w1 _ h1 (hw w1 (by simp))
+  have hA : ∀ a', Holds t s (E (k - 1)) q a' false (.ok (q + (renderB t h).length) [nest t h]) :=
+    fun a' => hh.2.2 q _ hs0 hq hfolH a' false q (preOf_false _ _ _)
+  have hbody : Holds t s (E k + 5) q false true
+      (.ok (q + (renderB t h).length + w1.length + lv.op1.length) ([nest t h] ++ [.s lv.op1])) :=
+    H_and t s (hfbF 5 (by omega) (by omega)) g5 (hns hT) (by rw [preOf_true, hq]; exact hA false)
+      (HRest.cons_ok t s (hOp false true _ (by rw [preOf_true, hpa])) (HRest.nil t s _ _ _)) (Or.inl ⟨_, _, rfl⟩)
+  have hfb : Holds t s (E k + 3) q a false (.ok q []) := by
+    have := H_fb_ok t s (a := a) (c := false) (loc := q) hfbT g3 (by rw [preOf_false]; exact hbody)
+    simpa [preOf_false] using this
+  have hloop := loop r _ [.s lv.op1] suf a h3 hwr hf
+  have hmany : Holds t s (E k + 9) (q + (renderB t h).length) a true _ :=
+    H_many t s (hfbF 9 (by omega) (by omega)) g9
+      (by rw [preOf_true, hpa]; exact hOp a true _ (by rw [preOf_true, hqo])) hle hloop
+  have hgb := H_and t s (a := a) (c := false) (loc := q) (hfbF 6 (by omega) (by omega)) g6 (hns hT)
+      (by rw [preOf_false]; exact hA a) (HRest.cons_ok t s hmany (HRest.nil t s _ _ _)) (Or.inl ⟨_, _, rfl⟩)
+  have hgrp := H_group_ok t s (a := a) (c := true) (loc := q) (hfbF 4 (by omega) (by omega)) g4 (by rw [preOf_true, hq]; exact hgb)
+  have hm := H_and t s (a := a) (c := true) (loc := q) (hfbF 2 (by omega) (by omega)) g2 (hns hT) (by rw [preOf_true, hq]; exact hfb)
+      (HRest.cons_ok t s hgrp (HRest.nil t s _ _ _)) (Or.inl ⟨_, _, rfl⟩)
+  have hmf := H_mf_ok t s (a := a) (c := false) (loc := q) (hfbF 1 (by omega) (by omega)) g1 (HMf.head t s _ hm)
+  have := H_forward_ok t s (a := a) (c := c) (loc := loc) (hfbF 0 (by omega) (by omega)) g0 (by rw [hloc]; exact hmf)
+  simpa [pN] using this
+
+end postL
+
 end Gen
 end PP.Infix
